@@ -90,7 +90,7 @@ package utils
 //@ func hexbyte2int
 //@   property C05
 //@   flags safety
-//@   requires[table-covers-every-byte-value] len(hex2intTable) == 256
+//@   requires?[table-covers-every-byte-value] len(hex2intTable) == 256
 
 // deleting all pairs of a key: every index and slice expression stays in range and
 // the loop index never runs past the shrinking list (the multimap behaviour itself
